@@ -45,6 +45,8 @@ def run(ctx):
     agg = {"nodes": 0, "kept": 0, "shifted": 0, "touched": 0}
     corr_bad = 0
     judge_bad = 0
+    hyp_bad = 0
+    hyp_ok = 0
     for line in out.split("\n"):
         if not line.strip():
             continue
@@ -59,6 +61,13 @@ def run(ctx):
         if len(samples) < 5 and evals % 997 == 1:
             samples.append({"case": cid, "spec": specs.get(cid, "")[:300], "result": kv})
         lang = cid.rsplit("-", 1)[0]
+        if kv.get("wfb") == "1" and kv.get("editok") == "1":
+            hyp_ok += 1
+        elif kv.get("wfb") != "1":
+            hyp_bad += 1
+            ctx.violation("corr", "a real tree does not satisfy WFb (hypothesis of edit_kept_shifted_bytes / edit_preserves_tiling)",
+                          {"case": cid, "spec": specs.get(cid, ""), "result": kv,
+                           "theorem_hypothesis": "TsVerif.C10.WFb"}, fingerprint={"lang": lang, "hyp": "wfb"}, found_input=False)
         if kv["judge"] != "ok":
             judge_bad += 1
             ctx.violation("judge", "C10 judge failed on the implementation's tree: " + kv["judge"],
@@ -71,6 +80,8 @@ def run(ctx):
                            "correspondence": "TsVerif.C10.editTree vs lib/src/subtree.c:ts_subtree_edit"},
                           fingerprint={"lang": lang, "corr": "diff"}, found_input=False)
     ctx.oblige("corr:editTree=ts_subtree_edit", corr_bad == 0, "%d disagreements" % corr_bad)
+    ctx.oblige("hyp:WFb-holds-on-every-real-tree(before and after)", hyp_bad == 0, "%d trees violate WFb" % hyp_bad)
+    ctx.coverage["theorem_hypotheses_met"] = {"cases_with_WFb_and_EditB": hyp_ok, "WFb_violations": hyp_bad}
     ctx.coverage.update({
         "evaluations": evals, "distinct_nontrivial": len(distinct),
         "rule": "zoo languages x grammar-directed documents (every 5th byte-mutated) x edit histories of 1-4 random edits "
